@@ -1,16 +1,288 @@
 /-
-Props/C03.lean — property C03 (work in progress: theorems are being added).
+Props/C03.lean — property C03: masked PSF blurring equals the true 2-D convolution restricted to
+the mask.  Every theorem quantifies over all frame shapes, all masks, all kernels of any odd shape
+(non-square, asymmetric, signed) and all images / blurring images / mapping matrices with entries
+in an arbitrary commutative ring `α` (ℝ, ℚ, …).  They are stated about the `Impl` layer of
+Model/Convolution.lean (loop transliterations of `Convolver.__init__`, `frame_at_coordinates_jit`,
+`convolve_jit`, `convolve_no_blurring_jit`, `convolve_matrix_jit` WITH repair D1), which the driver
+executes against the Python on every run.
+
+`Spec.conv2 h w K a p = Σ_{i<K.h} Σ_{j<K.w} a[p + (K.h/2, K.w/2) − (i,j)] · K[i,j]` with `a` read as
+zero outside the `h×w` frame: the full 2-D convolution with the flipped, centred kernel.
+The hypothesis `Impl.convolver m K = .ok cv` says the `Convolver` was constructed without an
+exception; by `convolver_defined_iff` that is: odd kernel and every footprint inside the frame.
 -/
 import Model.Convolution
+import Proofs.ConvolutionMain
+import Proofs.ConvolutionLinear
 
 open Model
 
 namespace C03
 
-/-- even-sized kernels are rejected by the convolver, never blurred with -/
-theorem even_kernel_rejected (m : Mask) (K : Kernel Rat) (h : K.h % 2 = 0 ∨ K.w % 2 = 0) :
+variable {α : Type} [CommRing α]
+
+/-! ## (b, first half) when a convolver exists -/
+
+/-- even-sized kernels are rejected — `KernelException`, never a value. -/
+theorem even_kernel_rejected (m : Mask) (K : Kernel α) (h : K.h % 2 = 0 ∨ K.w % 2 = 0) :
     Impl.convolver m K = .error .evenKernel := by
   unfold Impl.convolver
   rcases h with h | h <;> simp [h]
+
+/-- for an odd kernel the `Convolver` is constructed exactly when the kernel footprint of every
+    unmasked pixel stays inside the frame; otherwise the blurring-mask error is raised. -/
+theorem convolver_defined_iff (m : Mask) (K : Kernel α) (hh : K.h % 2 = 1) (hw : K.w % 2 = 1) :
+    ((∃ cv, Impl.convolver m K = .ok cv) ↔
+        ∀ p : Nat × Nat, p.1 < m.h → p.2 < m.w → m.get p.1 p.2 = false →
+          Spec.footprintInside m.h m.w K.h K.w p)
+    ∧ ((¬ ∃ cv, Impl.convolver m K = .ok cv) → Impl.convolver m K = .error .footprintOutside) := by
+  have hodd : (K.h % 2 == 0 || K.w % 2 == 0) = false := by simp [hh, hw]
+  have hsome := blurringBits_isSome_iff m hh hw
+  cases hb : Impl.blurringBits m K.h K.w with
+  | none =>
+    rw [hb] at hsome
+    have hres : Impl.convolver m K = .error .footprintOutside := by
+      simp only [Impl.convolver, hodd, hb, Bool.false_eq_true, if_false]
+    rw [hres]
+    refine ⟨⟨fun h => ?_, fun h => ?_⟩, fun _ => rfl⟩
+    · obtain ⟨cv, h⟩ := h; cases h
+    · exact absurd (hsome.mpr h) (by simp)
+  | some b =>
+    rw [hb] at hsome
+    have hres : ∃ cv, Impl.convolver m K = .ok cv := by
+      simp only [Impl.convolver, hodd, hb, Bool.false_eq_true, if_false]
+      exact ⟨_, rfl⟩
+    exact ⟨⟨fun _ => hsome.mp rfl, fun _ => hres⟩, fun h => absurd hres h⟩
+
+/-! ## (a) the blurred image is the true convolution of the combined native image -/
+
+/-- (a) `convolve_image(image, blurring_image)`: the result has one value per unmasked pixel and the
+    value at the k-th unmasked pixel `p` (slim order = `native_for_slim`) is the full 2-D convolution
+    at `p` of the combined native image — `image` scattered to the mask's unmasked pixels plus
+    `blurring_image` scattered to the blurring mask's unmasked pixels, zero elsewhere. -/
+theorem convolve_eq_true_convolution (m : Mask) (K : Kernel α) (cv : Impl.Convolver α)
+    (hcv : Impl.convolver m K = .ok cv) (img blur : List α)
+    (himg : img.length = Impl.totalPixels m)
+    (hblur : blur.length = Impl.totalPixels cv.blurringMask) :
+    (Impl.convolve cv img blur).length = Impl.totalPixels m
+    ∧ ∀ k (hk : k < (Impl.nativeForSlim m).length),
+        (Impl.convolve cv img blur).getD k 0
+          = Spec.conv2 m.h m.w K
+              (Spec.addNative (Impl.nativeFrom m img 0) (Impl.nativeFrom cv.blurringMask blur 0))
+              ((Impl.nativeForSlim m)[k]) := by
+  rw [totalPixels_eq] at himg hblur
+  refine ⟨by rw [convolve_length, himg, totalPixels_eq], ?_⟩
+  intro k hk
+  simp only [nativeForSlim_eq] at hk ⊢
+  exact convolve_getD m K cv hcv img blur himg hblur k hk
+
+/-- (a') `convolve_image_no_blurring(image)`: the same with no blurring-region light — the true
+    convolution of the masked image alone. -/
+theorem convolve_no_blurring_eq_true_convolution (m : Mask) (K : Kernel α) (cv : Impl.Convolver α)
+    (hcv : Impl.convolver m K = .ok cv) (img : List α) (himg : img.length = Impl.totalPixels m) :
+    (Impl.convolveNoBlurring cv img).length = Impl.totalPixels m
+    ∧ ∀ k (hk : k < (Impl.nativeForSlim m).length),
+        (Impl.convolveNoBlurring cv img).getD k 0
+          = Spec.conv2 m.h m.w K (Impl.nativeFrom m img 0) ((Impl.nativeForSlim m)[k]) := by
+  rw [totalPixels_eq] at himg
+  refine ⟨by rw [convolveNoBlurring_length, himg, totalPixels_eq], ?_⟩
+  intro k hk
+  simp only [nativeForSlim_eq] at hk ⊢
+  exact convolveNoBlurring_getD m K cv hcv img himg k hk
+
+/-! ## (e) agreement with the whole-frame convolution, hence (b) non-interference -/
+
+/-- (e) take ANY native image `a` of the frame.  Blurring its masked part together with its
+    blurring-region part gives, at every unmasked pixel, the value of the whole-frame convolution
+    of `a` itself (`scipy.signal.convolve2d(a, K, mode="same")` under its contract `Spec.convSame`,
+    which is what `Kernel2D.convolved_array_from` and `SimulatorImaging` compute). -/
+theorem whole_frame_agrees (m : Mask) (K : Kernel α) (cv : Impl.Convolver α)
+    (hcv : Impl.convolver m K = .ok cv) (a same : List α)
+    (hsame : Spec.convSame m.h m.w K a = some same) :
+    ∀ k (hk : k < (Impl.nativeForSlim m).length),
+      (Impl.convolve cv (Impl.slimFrom m a 0) (Impl.slimFrom cv.blurringMask a 0)).getD k 0
+        = same.getD (((Impl.nativeForSlim m)[k]).1 * m.w + ((Impl.nativeForSlim m)[k]).2) 0 := by
+  intro k hk
+  simp only [nativeForSlim_eq] at hk ⊢
+  rw [whole_frame m K cv hcv a k hk]
+  unfold Spec.convSame at hsame
+  split at hsame
+  · cases hsame
+  · simp only [Option.some.injEq] at hsame
+    subst hsame
+    have hmem := mem_unmaskedPixels.mp (List.getElem_mem hk)
+    have hpix := pixels_getElem?_flat (mem_pixels.mpr ⟨hmem.1, hmem.2.1⟩)
+    rw [List.getD_eq_getElem?_getD, List.getElem?_map, hpix]
+    rfl
+
+/-- (e, corollary) a noise-free simulated image is fitted with zero residual by the image that
+    generated it: data = whole-frame convolution gathered at the mask, model = masked blurring of
+    the generating image. -/
+theorem simulated_zero_residual (m : Mask) (K : Kernel α) (cv : Impl.Convolver α)
+    (hcv : Impl.convolver m K = .ok cv) (a same : List α)
+    (hsame : Spec.convSame m.h m.w K a = some same) :
+    ∀ k, k < Impl.totalPixels m →
+      (Impl.slimFrom m same 0).getD k 0
+        - (Impl.convolve cv (Impl.slimFrom m a 0) (Impl.slimFrom cv.blurringMask a 0)).getD k 0 = 0 := by
+  intro k hk
+  rw [totalPixels_eq] at hk
+  have hk' : k < (Impl.nativeForSlim m).length := by rw [nativeForSlim_eq]; exact hk
+  rw [whole_frame_agrees m K cv hcv a same hsame k hk', slimFrom_eq]
+  simp only [nativeForSlim_eq]
+  simp [Spec.slimFrom, List.getD_eq_getElem?_getD, hk, flat]
+
+/-- (b) values outside the mask and its blurring region never influence the result: two native
+    images that agree on every pixel unmasked in the mask or in the blurring mask blur identically. -/
+theorem non_interference (m : Mask) (K : Kernel α) (cv : Impl.Convolver α)
+    (hcv : Impl.convolver m K = .ok cv) (a a' : List α)
+    (hagree : ∀ y x, y < m.h → x < m.w →
+      (m.get y x = false ∨ cv.blurringMask.get y x = false) →
+        a.getD (y * m.w + x) 0 = a'.getD (y * m.w + x) 0) :
+    Impl.convolve cv (Impl.slimFrom m a 0) (Impl.slimFrom cv.blurringMask a 0)
+      = Impl.convolve cv (Impl.slimFrom m a' 0) (Impl.slimFrom cv.blurringMask a' 0) := by
+  have spec := convolver_ok m K cv hcv
+  have hshape : cv.blurringMask.h = m.h ∧ cv.blurringMask.w = m.w := by
+    obtain ⟨h1, h2, _, _⟩ := C10_blurring_spec m spec.oddH spec.oddW spec.blur
+    exact ⟨h1, h2⟩
+  have h1 : Impl.slimFrom m a 0 = Impl.slimFrom m a' 0 := by
+    rw [slimFrom_eq, slimFrom_eq]
+    apply List.map_congr_left
+    intro p hp
+    have := mem_unmaskedPixels.mp hp
+    exact hagree p.1 p.2 this.1 this.2.1 (Or.inl this.2.2)
+  have h2 : Impl.slimFrom cv.blurringMask a 0 = Impl.slimFrom cv.blurringMask a' 0 := by
+    rw [slimFrom_eq, slimFrom_eq]
+    apply List.map_congr_left
+    intro p hp
+    have := mem_unmaskedPixels.mp hp
+    rw [hshape.1, hshape.2] at this
+    simp only [flat, hshape.2]
+    exact hagree p.1 p.2 this.1 this.2.1 (Or.inr this.2.2)
+  rw [h1, h2]
+
+/-- the blurring mask a constructed convolver uses is the one characterised by C10.a (same shape as
+    the mask). -/
+theorem convolver_blurring_mask (m : Mask) (K : Kernel α) (cv : Impl.Convolver α)
+    (hcv : Impl.convolver m K = .ok cv) :
+    Impl.blurringFrom m K.h K.w = .ok cv.blurringMask
+    ∧ cv.blurringMask.h = m.h ∧ cv.blurringMask.w = m.w := by
+  have spec := convolver_ok m K cv hcv
+  obtain ⟨h1, h2, _, _⟩ := C10_blurring_spec m spec.oddH spec.oddW spec.blur
+  exact ⟨spec.blur, h1, h2⟩
+
+/-! ## (c) blurring a mapping matrix = the same operator applied to each column -/
+
+/-- (c) `convolve_mapping_matrix(M)` (repaired code: entries are skipped only when exactly zero):
+    column `c` of the result is `convolve_image_no_blurring` applied to column `c` of `M` — for every
+    real-valued matrix (any sign, any sparsity). -/
+theorem convolve_matrix_columnwise [DecidableEq α] (cv : Impl.Convolver α) (nrows ncols : Nat)
+    (M : List (List α)) (c : Nat) (hc : c < ncols) :
+    (Impl.convolveMatrix cv nrows ncols M).map (fun row => row.getD c 0)
+      = Impl.convolveNoBlurring cv ((List.range nrows).map fun s => (M.getD s []).getD c 0) := by
+  have := convolveMatrixWith_col (fun v : α => v != 0) cv nrows ncols M c hc
+    (fun s _ h => by simpa using h)
+  exact this
+
+/-- (c, pre-repair code) with the original test `value > 0` the statement holds only when every
+    entry of the column is positive or zero … -/
+theorem convolve_matrix_columnwise_as_is_partial [LT α] [DecidableLT α] (cv : Impl.Convolver α)
+    (nrows ncols : Nat) (M : List (List α)) (c : Nat) (hc : c < ncols)
+    (hpos : ∀ s, s < nrows → ¬ (0 < (M.getD s []).getD c 0) → (M.getD s []).getD c 0 = 0) :
+    (Impl.convolveMatrixAsIs cv nrows ncols M).map (fun row => row.getD c 0)
+      = Impl.convolveNoBlurring cv ((List.range nrows).map fun s => (M.getD s []).getD c 0) := by
+  have := convolveMatrixWith_col (fun v : α => decide (0 < v)) cv nrows ncols M c hc
+    (fun s hs h => hpos s hs (by simpa using h))
+  exact this
+
+/-- … and fails on a negative entry (defect D1, repaired): 1×3 mask strip with two unmasked pixels,
+    kernel (1,3) = [1,2,3], matrix column (−1, 0): the pre-repair loop returns zeros, the operator
+    (and the repaired loop) returns (−2, −3). -/
+theorem d1_pre_repair_witness :
+    let m : Mask := ⟨3, 5, [true, true, true, true, true, true, false, false, true, true,
+                            true, true, true, true, true]⟩
+    let K : Kernel Int := ⟨1, 3, [1, 2, 3]⟩
+    ∃ cv, Impl.convolver m K = .ok cv
+      ∧ Impl.convolveMatrixAsIs cv 2 1 [[-1], [0]] = [[0], [0]]
+      ∧ Impl.convolveMatrix cv 2 1 [[-1], [0]] = [[-2], [-3]]
+      ∧ Impl.convolveNoBlurring cv [-1, 0] = [-2, -3] := by
+  refine ⟨_, rfl, ?_, ?_, ?_⟩ <;> decide
+
+/-! ## (d) linearity of the three operators -/
+
+/-- (d1) `convolve_image` is linear: for `z = a·x + y`, `bz = a·bx + by` (entry-wise, equal
+    lengths) the result is `a·convolve(x,bx) + convolve(y,by)` entry-wise. -/
+theorem convolve_is_linear (cv : Impl.Convolver α) (a : α) (x y z bx by' bz : List α)
+    (hx : x.length = z.length) (hy : y.length = z.length)
+    (hz : ∀ s, z.getD s 0 = a * x.getD s 0 + y.getD s 0)
+    (hbx : bx.length = bz.length) (hby : by'.length = bz.length)
+    (hbz : ∀ s, bz.getD s 0 = a * bx.getD s 0 + by'.getD s 0) :
+    ∀ t, t < z.length →
+      (Impl.convolve cv z bz).getD t 0
+        = a * (Impl.convolve cv x bx).getD t 0 + (Impl.convolve cv y by').getD t 0 :=
+  fun t ht => convolve_linear cv a x y z bx by' bz hx hy hz hbx hby hbz t ht
+
+/-- (d2) `convolve_image_no_blurring` is linear. -/
+theorem convolve_no_blurring_is_linear (cv : Impl.Convolver α) (a : α) (x y z : List α)
+    (hx : x.length = z.length) (hy : y.length = z.length)
+    (hz : ∀ s, z.getD s 0 = a * x.getD s 0 + y.getD s 0) :
+    ∀ t, t < z.length →
+      (Impl.convolveNoBlurring cv z).getD t 0
+        = a * (Impl.convolveNoBlurring cv x).getD t 0 + (Impl.convolveNoBlurring cv y).getD t 0 :=
+  fun t ht => convolveNoBlurring_linear cv a x y z hx hy hz t ht
+
+/-- (d3) `convolve_mapping_matrix` is linear in the matrix, column by column: if column `c` of `L`
+    is `a·(column c of M) + (column c of M')` then so is column `c` of the blurred matrices. -/
+theorem convolve_matrix_is_linear [DecidableEq α] (cv : Impl.Convolver α) (nrows ncols : Nat)
+    (a : α) (L M M' : List (List α)) (c : Nat) (hc : c < ncols)
+    (hL : ∀ s, s < nrows →
+      (L.getD s []).getD c 0 = a * (M.getD s []).getD c 0 + (M'.getD s []).getD c 0) :
+    ∀ t, t < nrows →
+      ((Impl.convolveMatrix cv nrows ncols L).map (fun row => row.getD c 0)).getD t 0
+        = a * ((Impl.convolveMatrix cv nrows ncols M).map (fun row => row.getD c 0)).getD t 0
+          + ((Impl.convolveMatrix cv nrows ncols M').map (fun row => row.getD c 0)).getD t 0 := by
+  intro t ht
+  rw [convolve_matrix_columnwise cv nrows ncols L c hc, convolve_matrix_columnwise cv nrows ncols M c hc,
+    convolve_matrix_columnwise cv nrows ncols M' c hc]
+  apply convolveNoBlurring_linear cv a
+  · simp
+  · simp
+  · intro s
+    by_cases hs : s < nrows
+    · simp only [List.getD_eq_getElem?_getD, List.getElem?_map, List.getElem?_range hs, Option.map_some,
+        Option.getD_some]
+      have := hL s hs
+      simp only [List.getD_eq_getElem?_getD] at this
+      exact this
+    · have h1 : ∀ N : List (List α),
+          ((List.range nrows).map fun s => (N.getD s []).getD c 0).getD s 0 = 0 := by
+        intro N
+        rw [List.getD_eq_getElem?_getD, List.getElem?_eq_none (by simp; omega)]
+        rfl
+      rw [h1, h1, h1]; ring
+  · simpa using ht
+
+/-! ## non-vacuity: a concrete signed, non-square, asymmetric instance meets every hypothesis -/
+
+example :
+    let m : Mask := ⟨3, 5, [true, true, true, true, true, true, false, false, true, true,
+                            true, true, true, true, true]⟩
+    let K : Kernel Int := ⟨1, 3, [1, 2, 3]⟩
+    ∃ cv, Impl.convolver m K = .ok cv
+      ∧ cv.blurringMask.bits = [true, true, true, true, true, false, true, true, false, true,
+                                true, true, true, true, true]
+      ∧ Impl.convolve cv [5, 7] [4, -2] = [29, 27]
+      ∧ Impl.convolveNoBlurring cv [5, 7] = [17, 29]
+      ∧ Spec.convSame 3 5 K [0, 0, 0, 0, 0, 4, 5, 7, -2, 0, 0, 0, 0, 0, 0]
+          = some [0, 0, 0, 0, 0, 13, 29, 27, 17, -6, 0, 0, 0, 0, 0] := by
+  refine ⟨_, rfl, ?_, ?_, ?_, ?_⟩ <;> decide
+
+/-- even kernels and footprints leaving the frame are errors -/
+example :
+    Impl.convolver ⟨3, 3, [true, true, true, true, false, true, true, true, true]⟩
+        (⟨2, 3, [1, 1, 1, 1, 1, 1]⟩ : Kernel Int) = .error .evenKernel
+    ∧ Impl.convolver ⟨3, 3, [true, true, true, true, false, true, true, true, true]⟩
+        (⟨5, 3, List.replicate 15 1⟩ : Kernel Int) = .error .footprintOutside := by
+  constructor <;> rfl
 
 end C03
